@@ -341,3 +341,88 @@ def attr_bound(ctx, modules=None):
     ctx.ob('ATTR-BOUND', True, None, '%d classes: every attribute read on self / cls is bound' % n,
            key='scanned')
 
+
+def local_before_def(ctx, modules=None):
+    """LOCAL-ORDER - a local variable is not read before the textually first statement that
+    binds it.  Python decides at compile time that a name assigned anywhere in a function is a
+    local; reading it before any binding has run raises UnboundLocalError - on the first
+    iteration when the binding sits later in the same loop body.  Typical origin: the target of
+    an assignment was edited (`V1 = ...` -> `V2 = ...`) while later statements still read the
+    old name, which is bound further down.  Definite whenever the reading statement runs;
+    names bound only on some of the earlier paths are NOT judged."""
+    ctx.rule('LOCAL-ORDER', 'no local is read before the textually first statement binding it '
+             '(UnboundLocalError)')
+    repo = ctx.repo
+    n = 0
+    for f in repo.all_functions():
+        short = f.module.name.split('.')[-1]
+        if modules and short not in modules:
+            continue
+        if '.tests' in f.module.name:
+            continue
+        n += 1
+        params = set(f.params) | set(getattr(f, 'kwonly', []))
+        a_ = f.node.args
+        for x in (a_.vararg, a_.kwarg):
+            if x is not None:
+                params.add(x.arg)
+        nested = set()
+        for sub in ast.walk(f.node):
+            if sub is not f.node and isinstance(sub, (ast.FunctionDef, ast.AsyncFunctionDef,
+                                                      ast.Lambda, ast.ClassDef, ast.ListComp,
+                                                      ast.SetComp, ast.DictComp,
+                                                      ast.GeneratorExp)):
+                nested |= {id(y) for y in ast.walk(sub)}
+        globs = set()
+        for st in ast.walk(f.node):
+            if isinstance(st, (ast.Global, ast.Nonlocal)):
+                globs |= set(st.names)
+        first_store, first_load = {}, {}
+        for x in ast.walk(f.node):
+            if id(x) in nested or not isinstance(x, ast.Name):
+                continue
+            pos = (x.lineno, x.col_offset)
+            if isinstance(x.ctx, (ast.Store, ast.Del)):
+                if x.id not in first_store or pos < first_store[x.id][0]:
+                    first_store[x.id] = (pos, x)
+            else:
+                if x.id not in first_load or pos < first_load[x.id][0]:
+                    first_load[x.id] = (pos, x)
+        # `x += ...` reads x: the target of an augmented assignment counts as a load as well
+        for st in ast.walk(f.node):
+            if id(st) in nested:
+                continue
+            if isinstance(st, ast.AugAssign) and isinstance(st.target, ast.Name):
+                pos = (st.target.lineno, st.target.col_offset - 0.5)
+                if st.target.id not in first_load or pos < first_load[st.target.id][0]:
+                    first_load[st.target.id] = (pos, st.target)
+        # the value of `x = <e>` is evaluated before x is bound although it stands to the right
+        for st in ast.walk(f.node):
+            if id(st) in nested or not isinstance(st, (ast.Assign, ast.AnnAssign)):
+                continue
+            tg = st.targets if isinstance(st, ast.Assign) else [st.target]
+            stored = {y.id for t in tg for y in ast.walk(t) if isinstance(y, ast.Name) and
+                      isinstance(y.ctx, ast.Store)}
+            if st.value is None:
+                continue
+            for y in ast.walk(st.value):
+                if isinstance(y, ast.Name) and isinstance(y.ctx, ast.Load) and y.id in stored \
+                        and id(y) not in nested and y.id in first_store and \
+                        first_store[y.id][0] >= (st.lineno, st.col_offset):
+                    pos = (st.lineno, st.col_offset - 0.5)
+                    if pos < first_load.get(y.id, ((1e9, 0), None))[0]:
+                        first_load[y.id] = (pos, y)
+        for nm, (lp, lnode) in sorted(first_load.items()):
+            if nm in params or nm in globs or nm not in first_store:
+                continue
+            sp = first_store[nm][0]
+            if lp < sp:
+                ctx.ob('LOCAL-ORDER', False, None, "local '%s' is bound before it is read" % nm,
+                       f=f, node=lnode, key='%s:%s' % (f.qualname, nm),
+                       why="%s reads the local '%s' on line %d, but the first statement that binds "
+                           'it is on line %d: UnboundLocalError when the reading statement runs '
+                           '(on the first iteration, if both sit in one loop body)'
+                           % (f.qualname, nm, lnode.lineno, sp[0]))
+    ctx.ob('LOCAL-ORDER', True, None, '%d functions scanned' % n, key='scanned')
+    ctx.floor('LOCAL-ORDER', n, 1, 'functions')
+
